@@ -60,6 +60,14 @@ def gen(ctx):
         add("env 1.2 2 pub %s" % hexs(r.bytes(size)), "env:size%s" % sizeclass(size))
         add("enc 0 %s" % hexs(r.bytes(size)), "enc:size%s" % sizeclass(size))
         add("enc 1 %s" % hexs(r.bytes(size)), "enc:wrongkey:size%s" % sizeclass(size))
+    # buffer reuse: every party's certificate is loaded into one shared buffer (same address, same length) before its call,
+    # consecutive messages of equal length share their buffer
+    for rs, ops in (("2.3", "2.3.2.3"), ("2.3", "3.2.4.3"), ("1.2.3.4", "4.3.2.1.5.1"), ("2", "2.3.2"), ("7.8", "7.8.7"), ("5.6", "6.5.6.5")):
+        add("openseq env %s %s %s" % (rs, ops, hexs(r.bytes(20))), "openseq:env")
+        add("openseq signenv %s %s %s" % (rs, ops, hexs(r.bytes(20))), "openseq:signenv")
+    for sa, sb in (("1", "2"), ("2", "1"), ("1.2", "3.4"), ("3", "3"), ("1", "2.3")):
+        for la, lb in ((20, 20), (20, 21)):
+            add("signseq %s %s %s %s" % (sa, sb, hexs(r.bytes(la)), hexs(r.bytes(lb))), "signseq:%s-%s:%s" % (len(sa.split(".")), len(sb.split(".")), "same-length" if la == lb else "other-length"))
     # the same call frame opens for a recipient, then for an outsider (no key may survive from the first call)
     for rs, mem, out in (("1", 1, 2), ("1.2", 2, 3), ("2.3.4", 3, 1), ("7.8", 7, 9), ("8.7", 7, 9)):
         add("envseq %s %d %d %s" % (rs, mem, out, hexs(r.bytes(20))), "envseq:%drcpts" % len(rs.split(".")))
@@ -98,6 +106,13 @@ def gen(ctx):
     for kind in ("sign", "sign2", "env", "enc", "signenv"):
         for off in range(3):
             sweeps.append(("tamper %s 3 %d %s" % (kind, off, hexs(body)), "tamper:%s:offset%d" % (kind, off)))
+    # multi-party messages of every kind: every SignerInfo's signature and identifier, the opener's RecipientInfo, for every opener
+    for spec in ("sign:1.2.3", "sign:3.1", "env:2.3.4:2", "env:2.3.4:3", "env:2.3.4:4", "signenv:1.2.3:2.3:2", "signenv:1.2.3:2.3:3", "signenv:2.1:3.4.5:4"):
+        for off in range(3):
+            sweeps.append(("tamper %s 3 %d %s" % (spec, off, hexs(body)), "tamper:%s:offset%d" % (spec, off)))
+    # content shorter than one cipher block: IV bits meet the padding bytes of the only block
+    for off in range(3):
+        sweeps.append(("tamper signenv:1:2.3:2 3 %d %s" % (off, hexs(body[:8])), "tamper:signenv-short:offset%d" % off))
     if thorough:
         for kind in ("sign", "env", "enc", "signenv"):
             for size in (0, 16, 17):
@@ -196,7 +211,8 @@ def compare(ctx, cases, impl, model, variant):
             if "tried" not in m:
                 ctx.violation(cell, "tamper sweep did not run: %s" % a, {"kind": "failing-input", "op": line, "impl": a, "variant": variant}, True)
                 continue
-            kind = line.split()[1]
+            w_ = line.split()
+            kind = w_[1].split(":")[0] + ("-short" if (":" in w_[1] and len(w_[4]) < 32) else ("-multi" if ":" in w_[1] else ""))
             bad = False
             for region in ("content", "signature", "enckey", "signerid", "rcptid"):
                 if int(m.get(region, 0)):
@@ -205,8 +221,12 @@ def compare(ctx, cases, impl, model, variant):
                                   {"kind": "failing-input", "op": line, "impl": a, "expected": "0 accepted", "variant": variant}, True)
             if int(m.get("iv", 0)) or int(m.get("ciphertext", 0)):
                 bad = True
-                ctx.violation("tamper:%s:iv-or-ciphertext-bitflip-accepted" % kind,
-                              "single-bit changes of the IV / SM4-CBC ciphertext of a %s message are accepted (%s in the IV, %s in the ciphertext of %s tried): the format carries no integrity protection [%s]" % (kind, m.get("iv"), m.get("ciphertext"), m.get("tried"), variant),
+                base = kind.split("-")[0]
+                kkey = base if base in ("env", "enc") else kind       # EnvelopedData / EncryptedData: one finding, however many parties
+                why_ = ("the format carries no integrity protection" if base in ("env", "enc") else
+                        "the content is signed, so these are changes that leave the plaintext intact: sm4_cbc_padding_decrypt looks at the last padding byte only, flips that land in the other padding bytes pass")
+                ctx.violation("tamper:%s:iv-or-ciphertext-bitflip-accepted" % kkey,
+                              "single-bit changes of the IV / SM4-CBC ciphertext of a %s message are accepted (%s in the IV, %s in the ciphertext of %s tried): %s [%s]" % (kind, m.get("iv"), m.get("ciphertext"), m.get("tried"), why_, variant),
                               {"kind": "failing-input", "op": line, "impl": a, "expected": "0 accepted", "variant": variant}, True)
             if int(m.get("faults", 0)):
                 bad = True
@@ -250,7 +270,7 @@ def run(ctx):
         if exe is None:
             core.harness_build_failed(ctx, log)
             continue
-        for group, shards in ((cases, None), (sweeps, min(len(sweeps), 12))):
+        for group, shards in ((cases, None), (sweeps, min(len(sweeps), 16))):
             lines = [c[0] for c in group]
             impl, err = core.run_lines(exe, lines, shards=shards)
             mod, _ = core.run_lines(model, lines, shards=shards)
